@@ -57,6 +57,17 @@ Proof.
   - destruct l as [|h t]; [now rewrite !skipn_nil|]. rewrite Nat.add_succ_r. cbn [skipn]. apply IH.
 Qed.
 
+Lemma nth_firstn_lt {A} (l : list A) n i d : i < n -> nth i (firstn n l) d = nth i l d.
+Proof.
+  revert n i; induction l as [|h t IH]; intros [|n] [|i] H; cbn; auto; try lia. apply IH. lia.
+Qed.
+
+Lemma nth_skipn_add {A} (l : list A) n i d : nth i (skipn n l) d = nth (n + i) l d.
+Proof.
+  revert l; induction n as [|n IH]; intros l; cbn [skipn Nat.add]; auto.
+  destruct l as [|h t]; [destruct i; reflexivity|]. apply IH.
+Qed.
+
 Lemma prod_perm l l' : Permutation l l' -> prod l = prod l'.
 Proof. induction 1; cbn; lia. Qed.
 
